@@ -28,11 +28,11 @@ static void on_unit(bool isA, bool raw, const char *text, size_t len, bool a, bo
         size_t o = 0; for (const char *p = text; *p && o < sizeof got[0].text - 1; p++) if (*p != '\r') got[ngot].text[o++] = *p;
         got[ngot].text[o] = 0; ngot++;
 }
-static bool test_chain; static int chain_calls;      /* test handlers overwrite the text and ask for one more pass: the second pass must be handed the automatic text again */
+static bool test_chain, chain_silent; static int chain_calls;      /* chain_silent: the first pass asks for another one with NEXT (nothing is printed for it) instead of DATA_NEXT */      /* test handlers overwrite the text and ask for one more pass: the second pass must be handed the automatic text again */
 static cat_return_state policy(struct hcall *h)
 {
         if (h->kind == K_TEST && test_chain && h->cmd->name[0] != '#') {
-                if (chain_calls++ == 0 && h->max >= 8) { *h->psize = (size_t)snprintf((char *)h->data, h->max, "~x"); return CAT_RETURN_STATE_DATA_NEXT; }
+                if (chain_calls++ == 0 && h->max >= 8) { *h->psize = (size_t)snprintf((char *)h->data, h->max, "~x"); if (chain_silent) CNT("test_handlers_rewriting_the_text_before_NEXT"); return chain_silent ? CAT_RETURN_STATE_NEXT : CAT_RETURN_STATE_DATA_NEXT; }
                 return CAT_RETURN_STATE_DATA_OK;
         }
         if (h->kind == K_RUN && strcmp(h->cmd->name, "#H") == 0) return CAT_RETURN_STATE_PRINT_CMD_LIST_OK;
@@ -133,7 +133,7 @@ static void check_test(int wi, int capclass)
                 bool fits = (size_t)tl + 1 <= W.capA;
                 if (fits) {
                         CNT("test_texts_compared"); if (capclass == 2) CNT("test_texts_at_exact_fit");
-                        if (chained) { CNT("test_texts_compared_after_handler_rewrite"); if (!(ngot == 3 && strcmp(got[0].text, "~x") == 0 && got[1].type == 'D' && strcmp(got[1].text, ref) == 0 && got[2].type == 'C' && strcmp(got[2].text, "OK") == 0))
+                        if (chained) { CNT("test_texts_compared_after_handler_rewrite"); if (chain_silent ? !(ngot == 2 && got[0].type == 'D' && strcmp(got[0].text, ref) == 0 && got[1].type == 'C' && strcmp(got[1].text, "OK") == 0) : !(ngot == 3 && strcmp(got[0].text, "~x") == 0 && got[1].type == 'D' && strcmp(got[1].text, ref) == 0 && got[2].type == 'C' && strcmp(got[2].text, "OK") == 0))
                                 viol("C19", "test-text-differs", "after the test handler rewrote the text and returned DATA_NEXT, the next pass of AT%s=? must print the automatic text \"%.150s\" again", c->name, ref); }
                         else if (!(ngot == 2 && got[0].type == 'D' && strcmp(got[0].text, ref) == 0 && got[1].type == 'C' && strcmp(got[1].text, "OK") == 0))
                                 viol("C19", ngot >= 1 && got[0].type == 'C' && strcmp(got[0].text, "ERROR") == 0 ? "fitting-text-refused" : "test-text-differs", "AT%s=? must print \"%.200s\" and OK", c->name, ref);
@@ -168,7 +168,7 @@ static void check_test(int wi, int capclass)
                 }
                 bool fits = (size_t)tl + 1 <= W.capU;
                 CNT("test_events");
-                if (fits && chained_u) { if (!(ngot == 2 && strcmp(got[0].text, "~x") == 0 && got[1].prod == 'U' && strcmp(got[1].text, ref) == 0)) viol("C19", "event-test-text-differs", "second pass of the TEST event of \"%s\" must print \"%.200s\"", c->name, ref); }
+                if (fits && chained_u) { if (chain_silent ? !(ngot == 1 && got[0].prod == 'U' && strcmp(got[0].text, ref) == 0) : !(ngot == 2 && strcmp(got[0].text, "~x") == 0 && got[1].prod == 'U' && strcmp(got[1].text, ref) == 0)) viol("C19", "event-test-text-differs", "second pass of the TEST event of \"%s\" must print \"%.200s\"", c->name, ref); }
                 else if (fits) { if (!(ngot == 1 && got[0].prod == 'U' && strcmp(got[0].text, ref) == 0)) viol("C19", "event-test-text-differs", "TEST event of \"%s\" must print \"%.200s\"", c->name, ref); }
                 else if (ngot != 0) viol("C19", "truncated-instead-of-error", "TEST event text of %d bytes does not fit capacity %zu but something was printed", tl, W.capU);
         }
@@ -336,7 +336,7 @@ void chk_run_case(uint64_t seed, long c, bool is_sweep)
         if (chance(8)) { view_groups_case(); return; }
         if (chance(6)) { separator_overflow_case(); return; }
         gen_descriptor();
-        test_chain = chance(50);
+        test_chain = chance(50); chain_silent = chance(40);
         int target = (int)rn((unsigned)ND - 2); if (strcmp(D[target].name, "+C") == 0) target = 0;
         /* generous build: reference lengths, cross-check */
         build(700, chance(50), 700);
